@@ -54,8 +54,31 @@ def fp_hash(x):
     return hashlib.blake2b(repr(x).encode('utf8', 'replace'), digest_size=6).hexdigest()
 
 
-class MonitorReached(Exception):
-    pass
+class CaseTimeout(BaseException):
+    """raised inside a case by Ctx.time_limit: the case is skipped and counted, never judged"""
+
+
+class _TimeLimit:
+    def __init__(self, ctx, seconds):
+        self.ctx, self.seconds = ctx, seconds
+
+    def __enter__(self):
+        import signal
+
+        def handler(signum, frame):
+            raise CaseTimeout()
+        self.old = signal.signal(signal.SIGALRM, handler)
+        signal.setitimer(signal.ITIMER_REAL, self.seconds)
+        return self
+
+    def __exit__(self, et, ev, tb):
+        import signal
+        signal.setitimer(signal.ITIMER_REAL, 0)
+        signal.signal(signal.SIGALRM, self.old)
+        if et is CaseTimeout:
+            self.ctx.count('case_timeouts_skipped')
+            return True
+        return False
 
 
 class Ctx:
@@ -112,6 +135,10 @@ class Ctx:
         seq = list(seq)
         for i in self.indices(len(seq), phase, exhaustive):
             yield seq[i]
+
+    def time_limit(self, seconds):
+        """with ctx.time_limit(5): ...   a case that takes longer is abandoned (counted, not judged)"""
+        return _TimeLimit(self, seconds)
 
     # ---- recording --------------------------------------------------
     def count(self, name, n=1):
